@@ -86,9 +86,14 @@ type Op struct {
 	// CancelIn (row, 1-based column): that column's value is handed over as a
 	// pgtype.TextValuer whose TextValue() cancels the session context - a time
 	// limit that runs out while that very value is being encoded
-	CancelIn int      `json:"cancel_in,omitempty"`
-	Err      *ErrSpec `json:"err,omitempty"`
-	OIDs     []uint32 `json:"oids,omitempty"`
+	CancelIn int `json:"cancel_in,omitempty"`
+	// YieldIn (row, 1-based column): that column's string value is handed over
+	// as a pgtype.TextValuer whose TextValue() is a schedule point - user code
+	// that runs in the middle of the encoding of a row, i.e. while the
+	// library is between starting and finishing a message
+	YieldIn int      `json:"yield_in,omitempty"`
+	Err     *ErrSpec `json:"err,omitempty"`
+	OIDs    []uint32 `json:"oids,omitempty"`
 }
 
 // ErrSpec builds an error with the library's decorators applied in Order
@@ -758,6 +763,11 @@ func (rt *Runtime) runStmt(ctx context.Context, key string, idx int, sp *StmtPro
 							c.cancelSession()
 						}
 					}}
+				}
+			}
+			if op.YieldIn > 0 && op.YieldIn <= len(vals) {
+				if str, ok := vals[op.YieldIn-1].(string); ok {
+					vals[op.YieldIn-1] = cancellingText{s: str, fn: func() { rt.K.Yield(c.task, "op.encode") }}
 				}
 			}
 			if op.Reuse {
